@@ -265,16 +265,16 @@ Definition cell_interval (is_log : bool) (wq : Q) (lo v : D) : option (option (Q
   | _, _, _, _ => None
   end.
 
-Fixpoint cells_intervals (is_log : bool) (wq : Q) (lo v : table (R:=D)) : option (option (list Q * list Q)) :=
-  match lo, v with
-  | (_, a) :: lo, (_, b) :: v =>
-    match cell_interval is_log wq a b, cells_intervals is_log wq lo v with
+(** the cells of the start symbol in row-major order, each looked up in both tables *)
+Fixpoint cells_intervals (is_log : bool) (wq : Q) (cells : list (list nat)) (lo v : table (R:=D)) : option (option (list Q * list Q)) :=
+  match cells with
+  | [] => Some (Some ([], []))
+  | xi :: cells =>
+    match cell_interval is_log wq (tab_get dops lo xi) (tab_get dops v xi), cells_intervals is_log wq cells lo v with
     | Some (Some (l, h)), Some (Some (ls, hs)) => Some (Some (l :: ls, h :: hs))
     | None, _ | _, None => None
     | _, _ => Some None
     end
-  | [], [] => Some (Some ([], []))
-  | _, _ => None
   end.
 
 Definition meets (a b : Q * Q) : bool := Qle_bool (fst a) (snd b) && Qle_bool (fst b) (snd a).
@@ -319,7 +319,7 @@ Definition entry_interval (G : grammar) (ws : list (nat * list (option Q))) (is_
   match start_bounds G ws rounds nonrec l i0 with
   | None => None
   | Some (tlo, tv) =>
-    match cells_intervals is_log (wq_of wv) tlo tv with
+    match cells_intervals is_log (wq_of wv) (all_assts (lshape G (g_start G))) tlo tv with
     | None => None
     | Some None => Some None
     | Some (Some (los, his)) => Some (Some (contract cot los his))
